@@ -67,6 +67,18 @@ def gen_cases(tier):
             for e2 in ("f(x, p=2)", "f(x, p=3)", "x"):
                 add(("core", True, ("+", ("|", ("a", e1), ("a", g)), ("|", ("a", e2), ("a", g)))))
                 add(("core", True, ("-", ("+", ("|", ("a", e1), ("a", g)), ("|", ("a", e2), ("a", g))), ("|", ("a", e1), ("a", g)))))
+    # variables that carry the names the library gives to its own intercept terms are ordinary factors
+    odd = ["Intercept", "NegatedIntercept", "a"]
+    for n in range(1, 4):
+        for t in A.trees(n, odd, OPS):
+            add(("core", True, t))
+    for gfac in (("a", "g"), ("+", ("a", "g"), ("a", "h")), (":", ("a", "g"), ("a", "Intercept"))):
+        for n in (1, 2, 3):
+            for e in A.trees(n, ["Intercept", "x"] if n == 3 else ["Intercept", "NegatedIntercept", "x"], ["+", ":", "*"]):
+                for pre in (None, "0", "1"):
+                    eff = e if pre is None else ("+", ("lit", pre), e)
+                    add(("core", True, ("|", eff, gfac)))
+                    add(("core", True, ("+", ("a", "Intercept"), ("|", eff, gfac))))
     # flat (unparenthesised) operator chains: the documented precedence and left-associativity decide the tree
     import itertools as _it
     from fmc.refmodel import grammar as _G
